@@ -392,7 +392,7 @@ func (o *Obligation) ok() bool {
 }
 
 func main() {
-	debug.SetGCPercent(800)
+	debug.SetGCPercent(300)
 	if len(os.Args) < 2 {
 		fmt.Fprintln(os.Stderr, "usage: vcgo <check|dump> [flags]")
 		os.Exit(2)
